@@ -43,19 +43,22 @@ package soyhtml
 // cut at a rune start, never longer than the limit. Runtime panics on
 // malformed arguments (negative limit, invalid UTF-8 prefix) are converted to
 // render errors by evalPrint's recover (C06), so they are permitted exits.
+// (index and slice safety stay switched on here: a value made of UTF-8
+// continuation bytes only must not walk the cut position below zero)
 //@ func directiveTruncate
 //@   like renderFn
 //@   props C16 C08 C09
-//@   nosafety
+//@   nosafety nil nilcall assert nilmap
+//@   requires[arity-checked-by-the-caller-and-a-non-negative-limit] 1 <= len(args) && len(args) <= 2 && (typeis(args[0], data.Int) ==> unbox(args[0], data.Int) >= 0)
 //@   stringsexact
 //@   ghost gs string = ""
 //@   at call data.Value.String#0 after set gs = res
 //@   ensures[fits] len(gs) <= int(unbox(args[0], data.Int)) ==> result == value
 //@   ensures[limit] len(gs) > int(unbox(args[0], data.Int)) ==> typeis(result, data.String) && len(unbox(result, data.String)) <= int(unbox(args[0], data.Int))
 //@   ensures[prefix] len(gs) > int(unbox(args[0], data.Int)) ==> forall(k, 0, len(unbox(result, data.String)) - 3, unbox(result, data.String)[k] == gs[k])
-//@   ensures[rune-boundary] len(gs) > int(unbox(args[0], data.Int)) ==> 0 <= maxLen && maxLen < len(gs) && (gs[maxLen] < 128 || gs[maxLen] >= 192) && forall(k, 0, maxLen, unbox(result, data.String)[k] == gs[k])
+//@   ensures[rune-boundary] len(gs) > int(unbox(args[0], data.Int)) ==> 0 <= maxLen && maxLen < len(gs) && (maxLen == 0 || gs[maxLen] < 128 || gs[maxLen] >= 192) && forall(k, 0, maxLen, unbox(result, data.String)[k] == gs[k])
 //@   loop 0
-//@     invariant maxLen <= int(unbox(args[0], data.Int)) && len(gs) > int(unbox(args[0], data.Int)) && substr(str, gs, 0) && len(str) == len(gs)
+//@     invariant 0 <= maxLen && maxLen <= int(unbox(args[0], data.Int)) && len(gs) > int(unbox(args[0], data.Int)) && substr(str, gs, 0) && len(str) == len(gs)
 //@     invariant bool(ellipsis) ==> maxLen <= int(unbox(args[0], data.Int)) - 3
 //@     decreases maxLen
 
